@@ -78,6 +78,9 @@ func runCompiled(c *C16Case, rec *bufio.Writer, tmp string, idx int) (res Result
 			fail("panic", fmt.Sprint(p), "")
 		}
 	}()
+	if idx%40 == 0 {
+		compiledExtras(tmp, idx, fail)
+	}
 	ctx, _ := scopeOf(c.Ctx)
 	want := textOf(c.Expect.Out, c.Pads, false)
 	var lm int64
@@ -371,6 +374,83 @@ func runCompiled(c *C16Case, rec *bufio.Writer, tmp string, idx int) (res Result
 		}
 	}
 	return
+}
+
+// compiledExtras: scenarios that do not depend on the case at hand (made for every 40th case): a directory written by
+// CompileAll is read back whole by LoadAll; one compiled object registered on two engines renders with each engine's own
+// environment; compiling one template under two names gives two compiled forms that keep their names
+func compiledExtras(tmp string, idx int, fail func(why, got, want string)) {
+	// (names that end in letters of ".twig.compiled", a name that is a prefix of another)
+	names := map[string]string{"page": "P{{ x }}", "layout": "L{{ x }}", "home": "H", "cart": "C1", "car": "C2", "t": "T", "index": "I"}
+	e1 := twig.New()
+	for n, src := range names {
+		e1.RegisterString(n, src)
+	}
+	dir := filepath.Join(tmp, fmt.Sprintf("x%d", idx))
+	defer os.RemoveAll(dir)
+	cl := twig.NewCompiledLoader(dir)
+	if err := cl.CompileAll(e1); err != nil {
+		fail("compile-all", err.Error(), "")
+		return
+	}
+	e2 := twig.New()
+	cl2 := twig.NewCompiledLoader(dir)
+	e2.RegisterLoader(cl2)
+	if err := cl2.LoadAll(e2); err != nil {
+		fail("load-all", err.Error(), "")
+	}
+	have := map[string]bool{}
+	for _, n := range e2.GetCachedTemplateNames() {
+		have[n] = true
+	}
+	for n, src := range names {
+		if !have[n] {
+			fail("load-all-missed", n, "every name CompileAll wrote")
+		}
+		want := strings.ReplaceAll(src, "{{ x }}", "7")
+		if out, err := e2.Render(n, map[string]interface{}{"x": 7}); err != nil || out != want {
+			fail("load-all-render", fmt.Sprintf("%s: %q %v", n, out, err), want)
+		}
+	}
+	// one compiled object, two engines with their own globals and filters
+	ea, eb := twig.New(), twig.New()
+	ea.AddGlobal("gv", "A")
+	eb.AddGlobal("gv", "B")
+	ea.AddFilter("mark", func(v interface{}, args ...interface{}) (interface{}, error) { return "a:" + fmt.Sprint(v), nil })
+	eb.AddFilter("mark", func(v interface{}, args ...interface{}) (interface{}, error) { return "b:" + fmt.Sprint(v), nil })
+	comp := &twig.CompiledTemplate{Name: "shared", Source: "{{ gv }}|{{ 1|mark }}", LastModified: 1, CompileTime: 1}
+	for _, x := range []struct {
+		e    *twig.Engine
+		want string
+	}{{ea, "A|a:1"}, {eb, "B|b:1"}, {ea, "A|a:1"}} {
+		if err := x.e.RegisterCompiledTemplate(comp); err != nil {
+			fail("register-shared-compiled", err.Error(), "")
+		} else if out, err := x.e.Render("shared", nil); err != nil || out != x.want {
+			fail("shared-compiled-environment", fmt.Sprintf("%q %v", out, err), x.want)
+		}
+	}
+	// one template object under two names, compiled under both before either is used
+	e3 := twig.New()
+	e3.RegisterString("orig", "O{{ x }}")
+	if tObj, err := e3.Load("orig"); err == nil {
+		e3.RegisterTemplate("alias", tObj)
+		c1, err1 := e3.CompileTemplate("orig")
+		c2, err2 := e3.CompileTemplate("alias")
+		if err1 != nil || err2 != nil {
+			fail("compile-two-names", fmt.Sprint(err1, err2), "")
+		} else if c1.Name != "orig" || c2.Name != "alias" {
+			fail("compiled-names", c1.Name+" / "+c2.Name, "orig / alias")
+		} else {
+			e4 := twig.New()
+			e4.RegisterCompiledTemplate(c1)
+			e4.RegisterCompiledTemplate(c2)
+			for _, n := range []string{"orig", "alias"} {
+				if out, err := e4.Render(n, map[string]interface{}{"x": 1}); err != nil || out != "O1" {
+					fail("compiled-two-names-render", fmt.Sprintf("%s: %q %v", n, out, err), "O1")
+				}
+			}
+		}
+	}
 }
 
 func cmdCompiled(args []string) {
